@@ -94,15 +94,35 @@ void Ev::emit() {
     fflush(g_out);
 }
 
-InBuf::InBuf(const bytes_t &v, bool null_if_empty, unsigned align) : mem(0), p(0), n(v.size()) {
+#ifdef DRV_ASAN
+InBuf::InBuf(const bytes_t &v, bool null_if_empty, unsigned align) : mem(0), p(0), n(v.size()), maplen(0) {
     if (n == 0 && null_if_empty) return;
-    // exact-size allocation whose END coincides with the end of the data
+    // exact-size allocation whose END coincides with the end of the data (AddressSanitizer sees an over-read)
     mem = (uint8_t *)malloc(n + align + (n + align == 0 ? 1 : 0));
     if (!mem) fatal("oom");
     p = mem + align;
     if (n) memcpy(p, &v[0], n);
 }
 InBuf::~InBuf() { free(mem); }
+#else
+// Inputs are const for the library: they live in pages that are READ-ONLY while the call runs (a write through a
+// cast-away const faults even if it is undone before the call returns) and end at an inaccessible guard page
+// (an over-read of more than the alignment slack faults).
+InBuf::InBuf(const bytes_t &v, bool null_if_empty, unsigned align) : mem(0), p(0), n(v.size()), maplen(0) {
+    if (n == 0 && null_if_empty) return;
+    size_t pg = 4096, data = ((n + 8 + pg - 1) / pg) * pg;
+    maplen = data + pg;
+    mem = (uint8_t *)mmap(0, maplen, PROT_READ | PROT_WRITE, MAP_PRIVATE | MAP_ANONYMOUS, -1, 0);
+    if (mem == (uint8_t *)MAP_FAILED) fatal("mmap");
+    uint8_t *end = mem + data;
+    p = end - n; p -= ((uintptr_t)p - align) & 7;          // p % 8 == align % 8, at most 7 bytes of slack before the guard page
+    memset(mem, 0xEE, data);
+    if (n) memcpy(p, &v[0], n);
+    mprotect(mem + data, pg, PROT_NONE);
+    mprotect(mem, data, PROT_READ);
+}
+InBuf::~InBuf() { if (mem) munmap(mem, maplen); }
+#endif
 
 OutBuf::OutBuf(size_t n_, unsigned align_) : n(n_), align(align_) {
     mem = (uint8_t *)malloc(n + 2 * GUARD + align);
@@ -151,13 +171,23 @@ Obj &obj_new(int id, const std::string &kind, size_t size) {
     if (g_objs.count(id)) obj_del(id);
     Obj o; o.kind = kind; o.size = size;
     size_t padded = (size + 7) & ~(size_t)7;
-    void *raw = 0;
-    if (posix_memalign(&raw, 64, padded + 2 * OBJ_GUARD)) fatal("oom");
+    // [canary][object, 64-byte aligned][canary] at the start of its own pages, so that the object can be made read-only
+    // while the library is only allowed to read it (obj_protect); an inaccessible page follows
+    size_t pg = 4096, data = ((padded + 2 * OBJ_GUARD + pg - 1) / pg) * pg;
+    uint8_t *raw = (uint8_t *)mmap(0, data + pg, PROT_READ | PROT_WRITE, MAP_PRIVATE | MAP_ANONYMOUS, -1, 0);
+    if (raw == (uint8_t *)MAP_FAILED) fatal("mmap");
+    mprotect(raw + data, pg, PROT_NONE);
     memset(raw, 0xA7, padded + 2 * OBJ_GUARD);
-    o.mem = (uint8_t *)raw + OBJ_GUARD;
+    o.mem = raw + OBJ_GUARD; o.map = raw; o.maplen = data + pg;
     memset(o.mem, 0, size);
     g_objs[id] = o;
     return g_objs[id];
+}
+void obj_protect(int id, bool readonly) {
+    std::map<int, Obj> &g_objs = id >= 1000 ? g_shared : ::g_objs;
+    std::map<int, Obj>::iterator it = g_objs.find(id);
+    if (it == g_objs.end() || !it->second.map) return;
+    mprotect(it->second.map, it->second.maplen - 4096, readonly ? PROT_READ : (PROT_READ | PROT_WRITE));
 }
 bool obj_exists(int id) { return g_objs.count(id) != 0; }
 Obj &obj_get(int id, const char *kind_prefix) {
@@ -173,7 +203,7 @@ void obj_del(int id) {
     std::map<int, Obj>::iterator it = g_objs.find(id);
     if (it == g_objs.end()) return;
     obj_check(id, it->second);
-    free((uint8_t *)it->second.mem - OBJ_GUARD);
+    munmap(it->second.map, it->second.maplen);
     g_objs.erase(it);
 }
 void obj_reset_all() {
@@ -209,14 +239,6 @@ static void on_signal(int sig) {
 }
 static void on_terminate() { fault_line("terminate"); _exit(3); }
 extern "C" void drv_sanitizer_death(void) { fault_line("sanitizer"); }
-#if defined(__has_feature)
-#if __has_feature(address_sanitizer)
-#define DRV_ASAN 1
-#endif
-#endif
-#if defined(__SANITIZE_ADDRESS__)
-#define DRV_ASAN 1
-#endif
 #ifdef DRV_ASAN
 extern "C" void __sanitizer_set_death_callback(void (*)(void));
 #endif
@@ -326,7 +348,9 @@ int main(int argc, char **argv) {
         for (size_t i = 0; i + 1 < begin; ++i) run_line(lines[i], (long)i + 1);
         fflush(g_out); g_in_prologue = false;
         snapshot_shared();
+        for (std::map<int, Obj>::iterator it = g_shared.begin(); it != g_shared.end(); ++it) obj_protect(it->first, true);     // only const uses are allowed now
         run_threads(lines, begin, nthreads, repeat, argv[2]);
+        for (std::map<int, Obj>::iterator it = g_shared.begin(); it != g_shared.end(); ++it) obj_protect(it->first, false);
         compare_shared(argv[2]);
     }
     obj_reset_all();
